@@ -5,6 +5,8 @@ CONSTANTS
   NDiscard = 1
   Crash = FALSE
   ReporterBug = "none"
+  Slots = 0
+  ReporterOnPool = FALSE
 SPECIFICATION Spec
 INVARIANTS DrawsExact DrawsComplete ExitOnlyWhenAllFinal CountOnce BarsBounded BookAsSets
 PROPERTY Termination
